@@ -59,6 +59,67 @@ class S:
         return 'S(%s %s)' % (self.k, ' '.join(repr(x) for x in self.a))
 
 
+def _cond_parts(e):
+    """e is `c ? x : y`, possibly under conversions -> (c, x, y) with the conversions pushed into the two arms"""
+    wraps = []
+    while e is not None and e.k == 'cast':
+        wraps.append(e)
+        e = e.a[2]
+    if e is None or e.k != 'cond':
+        return None
+    x, y = e.a[1], e.a[2]
+    if e.a[0] == x and y.k == 'const':
+        return None        # `x if x else 0`: a default for a missing value, not a branch (the canonicaliser folds it)
+    for w in reversed(wraps):
+        x = E('cast', w.a[0], w.a[1], x, loc=w.loc, ty=w.ty)
+        y = E('cast', w.a[0], w.a[1], y, loc=w.loc, ty=w.ty)
+    return e.a[0], x, y
+
+
+def normalise(block):
+    """One spelling for statements that can be written two ways, applied by both front ends to every function body so that
+    no rule has to know both:  `return c ? a : b`, `T x = c ? a : b` and `x = c ? a : b` become the if/else they abbreviate
+    (recursively; conversions around the ?: move into its arms)."""
+    out = []
+    for s in block:
+        out.extend(_norm_stmt(s))
+    return out
+
+
+def _norm_stmt(s):
+    k, a = s.k, s.a
+    if k == 'if':
+        return [S('if', a[0], normalise(a[1]), normalise(a[2]), loc=s.loc, raw=s.raw)]
+    if k == 'loop':
+        return [S('loop', a[0], normalise(a[1]), a[2], normalise(a[3]), normalise(a[4]), *a[5:], loc=s.loc, raw=s.raw)]
+    if k == 'switch':
+        return [S('switch', a[0], [(labels, normalise(blk)) for labels, blk in a[1]], loc=s.loc, raw=s.raw)]
+    if k == 'block':
+        return [S('block', normalise(a[0]), loc=s.loc, raw=s.raw)]
+    if k == 'try':
+        return [S('try', normalise(a[0]), [(t, n, normalise(b)) for t, n, b in a[1]], normalise(a[2]), loc=s.loc, raw=s.raw)]
+    if k == 'with':
+        return [S('with', a[0], normalise(a[1]), loc=s.loc, raw=s.raw)]
+    if k == 'return' and a[0] is not None:
+        sp = _cond_parts(a[0])
+        if sp is not None:
+            c, x, y = sp
+            return [S('if', c, _norm_stmt(S('return', x, loc=s.loc, raw=s.raw)), _norm_stmt(S('return', y, loc=s.loc, raw=s.raw)), loc=s.loc, raw=s.raw)]
+    if k == 'decl' and a[2] is not None:
+        sp = _cond_parts(a[2])
+        if sp is not None:
+            c, x, y = sp
+            tgt = E('var', a[0], loc=s.loc, ty=a[1])
+            return [S('decl', a[0], a[1], None, loc=s.loc, raw=s.raw),
+                    S('if', c, _norm_stmt(S('assign', tgt, x, '=', loc=s.loc, raw=s.raw)), _norm_stmt(S('assign', tgt, y, '=', loc=s.loc, raw=s.raw)), loc=s.loc, raw=s.raw)]
+    if k == 'assign' and a[2] == '=' and a[0].k in ('var', 'field', 'index', 'deref'):
+        sp = _cond_parts(a[1])
+        if sp is not None:
+            c, x, y = sp
+            return [S('if', c, _norm_stmt(S('assign', a[0], x, '=', loc=s.loc, raw=s.raw)), _norm_stmt(S('assign', a[0], y, '=', loc=s.loc, raw=s.raw)), loc=s.loc, raw=s.raw)]
+    return [s]
+
+
 def const(v, **kw):
     return E('const', v, **kw)
 
